@@ -208,6 +208,13 @@ case!(ArrStringx2: [String; 2], shapes = 4, make = |s| arr_string2(s), same = |a
       eps = |x, e| eqstr(&x[0], e[0]) && eqstr(&x[1], e[1]),
       borrows = |e, out| { out.str(e[0], 0); out.str(e[1], 1); }, n = |_x| 2);
 
+/// deep array whose items own heap memory but are not strings
+pub const AV_SHAPES: [(usize, usize); 3] = [(0, 0), (1, 2), (2, 0)];
+fn arr_vec2(s: usize) -> [Vec<u16>; 2] { [vec_n::<u16>(AV_SHAPES[s].0), vec_n::<u16>(AV_SHAPES[s].1)] }
+case!(ArrVecx2: [Vec<u16>; 2], shapes = 3, make = |s| arr_vec2(s), same = |a, b| eqs(&a[0], &b[0]) && eqs(&a[1], &b[1]),
+      eps = |x, e| eqs(&x[0], e[0]) && eqs(&x[1], e[1]),
+      borrows = |e, out| { out.slice(e[0], 0); out.slice(e[1], 1); }, n = |_x| 2);
+
 // ---- tuples (zero-copy, homogeneous) -----------------------------------------------
 
 case!(Tup1: (u32,), make = |_s| any(), same = |a, b| a == b, eps = |x, e| x == *e, borrows = |e, out| { out.re(*e, 0); }, n = |_x| 1);
